@@ -49,8 +49,8 @@ ANCHORS = [
 
 def plan(tier):
     if tier == "quick":
-        return {"shards": 16, "trees": 200, "values": 8, "timeout": 300}
-    return {"shards": 16, "trees": 12000, "values": 10, "timeout": 3000}
+        return {"shards": 16, "trees": 200, "values": 8, "timeout": 300, "mirror": True}
+    return {"shards": 16, "trees": 12000, "values": 10, "timeout": 3000, "mirror": True}
 
 
 def collect_refs(node, out=None):
@@ -90,6 +90,7 @@ def check_tree(ctx, sut, element, extra_elements, definitions, model_schema, val
     ctx.count("docs.serialized")
     try:
         text = json.dumps(doc)
+        ctx.doc_texts.append(text)
         doc = json.loads(text)
     except (TypeError, ValueError) as exc:
         ctx.witness("not_json_serializable", case, f"{type(exc).__name__}: {exc!r}"[:300])
@@ -154,8 +155,13 @@ def check_tree(ctx, sut, element, extra_elements, definitions, model_schema, val
 def run_shard(ctx):
     from vlib import sut  # pylint: disable=import-outside-toplevel
 
-    rng = ctx.rng
-    for idx in range(ctx.params["trees"]):
+    import random as _random  # pylint: disable=import-outside-toplevel
+
+    # every case is a function of its own seed only, so the mirror shard can take the cases in reverse
+    seeds = [ctx.gen_rng.getrandbits(48) for _ in range(ctx.params["trees"])]
+    for idx, case_seed in ctx.ordered(seeds):
+        rng = _random.Random(case_seed)
+        ctx.case_rng = rng
         extra, definitions, f08 = [], {}, False
         if idx % 3 == 0:
             schema, _tag = gs.any_schema(rng, gs.Opts(lookalike_literals=False))
@@ -254,6 +260,7 @@ def run_shard(ctx):
             [gv.random_value(rng) for _ in range(4)]
         if nodes >= 3:
             ctx.nontrivial(canon([case.get("spec") or case.get("schema"), mode, sorted(definitions)]))
+        ctx.doc_texts = []
         check_tree(ctx, sut, element, extra, definitions, model_schema, values, case, f08, f09)
         # the same tree again in the same process with other definitions / in another role: every
         # document must stand on its own (nothing may survive from the previous serialization)
@@ -268,6 +275,7 @@ def run_shard(ctx):
                            dict(case, definitions_mode="wrapped_in_array", reserialized=True), False, False)
                 check_tree(ctx, sut, element, extra, definitions, model_schema, values[:4],
                            dict(case, definitions_mode=mode + "->again", reserialized=True), f08, f09)
+        ctx.digest(idx, ctx.doc_texts)
         ctx.sample({k: v for k, v in case.items()}, every=70)
 
 
@@ -281,6 +289,7 @@ def replay(case, ctx):
         element = sut.parse_direct(case["schema"])
         model = case["schema"]
     values = [case["value"]] if "value" in case else []
+    ctx.doc_texts = []
     definitions = {}
     if case.get("definitions_mode") == "inside":
         for k, sub in enumerate([c for c in sut.get_children(element) if not isinstance(c, type)][:4]):
